@@ -40,6 +40,7 @@ class Contract:
         self.hints = kw.pop('hints', {})
         self.yields = kw.pop('yields', None)         # type of the value delivered at `x = yield`
         self.awaits = kw.pop('awaits', {})           # ordinal -> dict(result=type, raises=[...])
+        self.strict_futures = kw.pop('strict_futures', False)   # completing a completed asyncio future raises InvalidStateError (A-FUTURE)
         if kw:
             raise TypeError('unknown contract keys %s' % list(kw))
 
